@@ -47,7 +47,7 @@ Print Assumptions mask_strided_eq_bytewise.
    ws_read_frame_cb on (opcode, FIN, unmasked payload) *)
 Theorem ws_frame_roundtrip : forall cfg s key op final payload,
   w_stage s = SHead -> op < 128 -> length key = 4%nat -> N.of_nat (length payload) < 2 ^ 64 ->
-  frame_admitted cfg s (N.of_nat (length payload)) ->
+  frame_admitted cfg s op (N.of_nat (length payload)) ->
   ws_feed cfg (mkD s []) (ws_encode (negb (c_server cfg)) key op final payload) =
     let '(s1, e1) := ws_frame_cb cfg s op final payload in (mkD s1 [], e1).
 Proof. exact ws_feed_frame. Qed.
@@ -116,11 +116,12 @@ Theorem ws_decoder_rejects :
      ws_header_done cfg s h0 h1 ext = ws_fail s WS_CLOSE_TOO_BIG) /\
   (forall cfg s h0 h1 ext len, hd_len h1 ext = (len, true) ->
      (c_maxframe cfg <? len) && (0 <? c_maxframe cfg) = false ->
-     c_isstream cfg = false -> 0 < c_recvmax cfg -> c_recvmax cfg < len + sum_len (w_rxq s) ->
+     c_isstream cfg = false -> 0 < c_recvmax cfg -> c_ctl_counts cfg || (N.land (hd_op h0) 8 =? 0) = true ->
+     c_recvmax cfg < len + sum_len (w_rxq s) ->
      ws_header_done cfg s h0 h1 ext = ws_fail s WS_CLOSE_TOO_BIG) /\
   (forall cfg s h0 h1 ext len, hd_len h1 ext = (len, true) ->
      (c_maxframe cfg <? len) && (0 <? c_maxframe cfg) = false ->
-     negb (c_isstream cfg) && (0 <? c_recvmax cfg) && (c_recvmax cfg <? len + sum_len (w_rxq s)) = false ->
+     recvmax_exceeded cfg s (hd_op h0) len = false ->
      hd_masked h1 = negb (c_server cfg) ->
      ws_header_done cfg s h0 h1 ext = ws_fail s WS_CLOSE_PROTOCOL_ERR) /\
   (forall cfg s op final payload, known_op op = false ->
@@ -156,6 +157,32 @@ Theorem ws_no_delivery_after_error : forall cfg pieces d,
   w_stage (d_inner d) = SHalt -> snd (ws_feed_all cfg d pieces) = [].
 Proof. exact ws_no_delivery_after_halt. Qed.
 Print Assumptions ws_no_delivery_after_error.
+
+(* RECVMAXSZ and interleaved control frames.  In the text pinned at e917035
+   (and as long as C16_RECVMAX_COUNTS_CONTROL is true) the running test of
+   ws_read_cb adds the payload of ping/pong/close frames to the size of the
+   message being assembled: a 10-byte message with RECVMAXSZ 10 is refused
+   (1009) when a 5-byte ping arrives between its two fragments -- the
+   reassembly property fails for that configuration; with the control frames
+   left out of the sum ([c_ctl_counts] = false) it is delivered. *)
+Definition ctl_recvmax_witness : list byte :=
+  ws_encode_frames false (repeat [17; 34; 51; 68] 3)
+    [(WS_BINARY, false, [49; 50; 51; 52; 53; 54; 55; 56]); (WS_PING, true, [65; 66; 67; 68; 69]); (WS_CONT, true, [57; 48])].
+Theorem ws_recvmax_control_pinned_refuted :
+  snd (ws_feed (mkCfg true false DEF_MAXRXFRAME 10 false (2 ^ 40) true) ws_dinit ctl_recvmax_witness) =
+    [ETx WS_CLOSE (be_enc 2 WS_CLOSE_TOO_BIG); EClose WS_CLOSE_TOO_BIG].
+Proof. vm_compute. reflexivity. Qed.
+Print Assumptions ws_recvmax_control_pinned_refuted.
+Theorem ws_recvmax_control_holds :
+  snd (ws_feed (mkCfg true false DEF_MAXRXFRAME 10 false (2 ^ 40) false) ws_dinit ctl_recvmax_witness) =
+    [ETx WS_PONG [65; 66; 67; 68; 69]; EDeliver [49; 50; 51; 52; 53; 54; 55; 56; 57; 48]] /\
+  (forall cfg s len, c_ctl_counts cfg = false -> recvmax_exceeded cfg s WS_PING len = false /\
+                     recvmax_exceeded cfg s WS_PONG len = false /\ recvmax_exceeded cfg s WS_CLOSE len = false).
+Proof.
+  split; [vm_compute; reflexivity|]. intros cfg s len H. unfold recvmax_exceeded. rewrite H.
+  repeat split; cbn; rewrite !andb_false_r; reflexivity.
+Qed.
+Print Assumptions ws_recvmax_control_holds.
 
 (* ---------------------------------------------------------------- (d) *)
 (* A well-formed frame sequence [msg_seq]: any number of messages, each a single
@@ -250,7 +277,7 @@ Print Assumptions emit_well_formed.
 (* corollary: it is accepted by the decoder model of the opposite role *)
 Theorem emit_accepted_by_peer : forall cfg s key op final payload,
   w_stage s = SHead -> op < 128 -> length key = 4%nat -> N.of_nat (length payload) < 2 ^ 64 ->
-  frame_admitted cfg s (N.of_nat (length payload)) ->
+  frame_admitted cfg s op (N.of_nat (length payload)) ->
   fst (ws_feed cfg (mkD s []) (ws_encode (negb (c_server cfg)) key op final payload)) =
     mkD (fst (ws_frame_cb cfg s op final payload)) [].
 Proof.
@@ -385,14 +412,14 @@ Print Assumptions ws_dialer_limits_as_coded.
 (* the hypotheses of ws_frame_roundtrip are satisfiable with the default
    configuration, and the decoder then delivers the payload *)
 Example frame_roundtrip_nonvacuous :
-  let cfg := mkCfg true false DEF_MAXRXFRAME DEF_RECVMAX false (2 ^ 40) in
-  frame_admitted cfg ws_init 5 /\
+  let cfg := mkCfg true false DEF_MAXRXFRAME DEF_RECVMAX false (2 ^ 40) false in
+  frame_admitted cfg ws_init WS_BINARY 5 /\
   snd (ws_feed cfg ws_dinit (ws_encode false [1; 2; 3; 4] WS_BINARY true [72; 101; 108; 108; 111])) =
     [EDeliver [72; 101; 108; 108; 111]].
 Proof. split; [repeat split|]; vm_compute; reflexivity. Qed.
 
 Example reassembly_nonvacuous :
-  let cfg := mkCfg true false 0 0 false (2 ^ 40) in
+  let cfg := mkCfg true false 0 0 false (2 ^ 40) false in
   let frs := [(WS_BINARY, false, [1]); (WS_PING, true, [9]); (WS_CONT, false, [2]); (WS_PONG, true, []);
               (WS_CONT, true, [3]); (WS_BINARY, true, [4; 5])] in
   msg_seq cfg frs [[1; 2; 3]; [4; 5]] /\ frames_encodable (repeat [7; 7; 7; 7] 6) frs /\
